@@ -460,11 +460,12 @@ class Model:
     def _propagate_all_different(self, variables, domains: dict[str, set[int]]) -> bool:
         """Propagate all_different: assigned values removed from other domains."""
         # Remove assigned values from other domains
-        for var in variables:
+        # Positions, not objects, are compared: a variable listed twice can never differ from itself
+        for i, var in enumerate(variables):
             if len(domains[var.name]) == 1:
                 val = next(iter(domains[var.name]))
-                for other in variables:
-                    if other is not var:
+                for j, other in enumerate(variables):
+                    if j != i:
                         domains[other.name].discard(val)
         return True
 
